@@ -285,6 +285,39 @@ func (a *Analysis) validOrMinus1(v ssa.Value, x ssa.Value, depth int) bool {
 				return true
 			}
 		}
+		// the finder is a function-valued parameter: every caller passes a repository finder for the same position
+		if fp, isP := y.Common().Value.(*ssa.Parameter); isP && !y.Common().IsInvoke() {
+			f := fp.Parent()
+			fi := -1
+			for i, q := range f.Params {
+				if q == fp {
+					fi = i
+				}
+			}
+			sites := a.callers[f]
+			if fi >= 0 && len(sites) > 0 && !a.entry[f] {
+				okAll := true
+				for _, site := range sites {
+					if fi >= len(site.Common().Args) {
+						okAll = false
+						break
+					}
+					fn, isFn := site.Common().Args[fi].(*ssa.Function)
+					if !isFn {
+						okAll = false
+						break
+					}
+					pi := a.indexResultParam(fn)
+					if pi < 0 || pi >= len(y.Common().Args) || !sameValue(y.Common().Args[pi], x) {
+						okAll = false
+						break
+					}
+				}
+				if okAll {
+					return true
+				}
+			}
+		}
 	case *ssa.Parameter:
 		// every caller passes (x', v') with v' validOrMinus1 for x'
 		f := y.Parent()
